@@ -407,10 +407,26 @@ def _run_impl_built(case, deep, conf, kw, policy, _parser):
         real_c = dict(creds) if type(creds) is dict else None
         target.clear()
         target.update({k: v + '_decoy' for k, v in real_t.items() if isinstance(v, str)})
+        saved_lists = {}
         if real_c is not None:
+            for k, v in real_c.items():
+                if isinstance(v, list):
+                    saved_lists[k] = list(v)
+                    v[:] = [r + '_decoy' for r in v if isinstance(r, str)]      # the SAME list object, other members
             creds.clear()
-            creds.update({k: ([r + '_decoy' for r in v if isinstance(r, str)] if isinstance(v, list) else v)
-                          for k, v in real_c.items() if k != 'system_scope'})
+            creds.update({k: v for k, v in real_c.items() if k != 'system_scope'})
+        ctx_roles = None
+        if hasattr(creds, 'to_policy_values') and hasattr(creds, 'roles'):
+            ctx_roles = creds.roles
+            creds.roles = [r + '_decoy' for r in (ctx_roles or [])]           # the SAME context object, other roles
+        if case['rule'][0] != 'name' and case['rule'][2]:
+            # a check object with the same text but OTHER scope types was enforced on this enforcer before
+            twin = _parser.parse_rule(case['rule'][1])
+            twin.scope_types = [t for t in ('system', 'domain', 'project') if t not in case['rule'][2]] or ['domain']
+            try:
+                e.enforce(twin, target, creds, False)
+            except Exception:   # noqa
+                pass
         # ... and so does every option that is read per call: the warm-up runs under the other payload encoding
         ct = conf.oslo_policy.remote_content_type
         conf.set_override('remote_content_type', 'application/json' if ct != 'application/json'
@@ -422,7 +438,11 @@ def _run_impl_built(case, deep, conf, kw, policy, _parser):
         conf.set_override('remote_content_type', ct, group='oslo_policy')
         target.clear()
         target.update(real_t)
+        if ctx_roles is not None:
+            creds.roles = ctx_roles
         if real_c is not None:
+            for k, v in saved_lists.items():
+                real_c[k][:] = v
             creds.clear()
             creds.update(real_c)
         del _trace[:]
